@@ -22,6 +22,12 @@ whatever the exponentiation computes: "all-ones => x is a square and the result 
 unconditional; "x square => all-ones" and "non-square => y^2 = -x (resp. +-2x)" need y = x^((q+1)/4) (resp.
 Atkin's candidate), i.e. the exponent arithmetic and Euler's criterion: outside (checked natively on a corpus).
 
+Montgomery type (GFp256 = ModInt256, thorough tier): limbs hold v*R mod q below q; the parity test reads
+`encode32()[0] & 1`, of which only the low limb survives dead-code elimination.  Stage `parity` replaces `normalise`:
+the parity word is proved bit-identical (z3-bv) to `encode(Y)[0] & 1` of the real `encode` executed on the same
+variables, and `encode` is proved to return the canonical integer (R*E == Y mod q, E < q; LIA).  `status` is a limb
+comparison (both sides canonical).  The Montgomery squaring stage is posed but does not close (C01's open item).
+
 A stage that cannot be located or proved is only a candidate: the native build is run on special and random
 inputs against the documented contract; only a native disagreement is a violation."""
 import time
@@ -29,10 +35,10 @@ import time
 from engines.llsym.build import Driver
 from engines.llsym import terms as T
 from engines.llsym.llexec import ExecError
-from engines.llsym.intenc import IntEnc, Lin
+from engines.llsym.intenc import IntEnc
 from engines.llsym import prove as PR
-from engines.llsym.smt import BVEmitter, run_solver, parse_model, bvc
-from vlib.common import Obligation, log
+from engines.llsym.smt import BVEmitter, run_solver, bvc
+from vlib.common import Obligation
 from . import fields as F
 from .fields import limbs_int, int_limbs
 from .lhelp import sym_run, word_form, rng, hexl, MachineryError
@@ -380,6 +386,8 @@ def check_tail(built, f, kind, timeout):
     below = "(< %s %d)" % (Nf.smt(), q)
     samples = [enc.eval_atoms(e) for e in envs] + stage_samples(enc, f, r, ["N"], below=True)
     _selfcheck(enc, samples, drv, [below])
+    _casecheck(enc, samples, drv, lambda s_: lsb.eval(s_) == 0 and Nf.eval(s_) < q, [below, "(= %s 0)" % lsb.smt()])
+    _casecheck(enc, samples, drv, lambda s_: lsb.eval(s_) == 1 and Nf.eval(s_) < q, [below, "(= %s 1)" % lsb.smt()])
     ra = PR.prove(enc, "(= %s %s)" % (YS.smt(), Nf.smt()), extra=[below, "(= %s 0)" % lsb.smt()], timeout=timeout)
     rb = PR.prove_congruence(enc, YS, -Nf, q, extra=[below, "(= %s 1)" % lsb.smt()], timeout=timeout,
                              samples=[s for s in samples if lsb.eval(s) == 1])
@@ -582,8 +590,6 @@ def check_tail_monty(built, f, kind, timeout):
     YS, Yf = word_form(enc, ys, 64), word_form(enc, Y, 64)
     Lf = enc.form(Lv)[0]
     samples = []
-    for s_ in stage_samples(enc, f, r, ["Y"], below=True, count=0):
-        samples.append(s_)
     from .fieldops import boundary_values
     vals = [v % q for v in boundary_values(f, r)] + [0, 1, q - 1]
     for it in range(48):
@@ -593,6 +599,8 @@ def check_tail_monty(built, f, kind, timeout):
     _selfcheck(enc, samples, drv, [lt(Yf)])
     ra = PR.prove(enc, "(= %s %s)" % (YS.smt(), Yf.smt()), extra=[lt(Yf), "(= %s 0)" % Lf.smt()], timeout=timeout)
     odd = [lt(Yf), "(= %s 1)" % Lf.smt(), "(> %s 0)" % Yf.smt()]      # odd canonical value: Y != 0
+    _casecheck(enc, samples, drv, lambda s_: Lf.eval(s_) == 0 and Yf.eval(s_) < q, [lt(Yf), "(= %s 0)" % Lf.smt()])
+    _casecheck(enc, samples, drv, lambda s_: Lf.eval(s_) == 1 and 0 < Yf.eval(s_) < q, odd)
     rb = PR.prove_congruence(enc, YS, -Yf, q, extra=odd, timeout=timeout, samples=[s_ for s_ in samples if Lf.eval(s_) == 1 and Yf.eval(s_) > 0])
     rc = PR.prove(enc, "(<= 0 %s %d)" % (YS.smt(), q - 1), extra=[lt(Yf)], timeout=timeout)
     if ra.status == "proved" and rb.status == "proved" and rc.status == "proved" and q % 2 == 1:
@@ -680,6 +688,18 @@ def stage_samples(enc, f, r, prefixes, below=False, count=48):
                 env["%s%d" % (p, i)] = w
         out.append(enc.eval_atoms(env))
     return out
+
+
+def _casecheck(enc, samples, drv, pred, extra):
+    """a case assumption must be met by a real execution (guards against a vacuous case split)"""
+    for s_ in samples:
+        if pred(s_):
+            try:
+                enc.validate_on(s_, list(extra))
+            except AssertionError as e:
+                raise MachineryError("case assumption rejected by a concrete run for %s: %s" % (drv, e))
+            return
+    raise MachineryError("no sample meets a case assumption for %s" % drv)
 
 
 def _selfcheck(enc, samples, drv, extra=()):
